@@ -367,4 +367,263 @@ theorem parseObj_bridge (cd : Codec C) (file : File) : C04R.parseObj cd file = i
     rw [h.1, mapOpt_faces s'.2 h.2]
     rfl
 
+
+/-! ### medit: the `while data:` loop of `import_medit` and `parse_field` against the line-by-line automaton `stepMedit` -/
+
+
+/-- the automaton of `Model/IO.lean` run from a given mode, with its end-of-file check -/
+def medRun (cd : Codec C) (mode : MedMode) (r : Raw C) (file : File) : Option (Raw C) :=
+  match foldOpt (stepMedit cd meditRows) (mode, r) file with
+  | some (.idle, r) => some r
+  | some (.done, r) => some r
+  | _ => none
+
+theorem medRun_nil_idle (cd : Codec C) (r : Raw C) : medRun cd .idle r [] = some r := rfl
+
+theorem medRun_cons (cd : Codec C) (mode : MedMode) (r : Raw C) (l : Line) (t : File) :
+    medRun cd mode r (l :: t) = match stepMedit cd meditRows (mode, r) l with
+      | none => none
+      | some s => medRun cd s.1 s.2 t := by
+  unfold medRun
+  simp only [foldOpt]
+  cases stepMedit cd meditRows (mode, r) l <;> rfl
+
+theorem medRun_done (cd : Codec C) (r : Raw C) : ∀ file : File, medRun cd .done r file = some r
+  | [] => rfl
+  | l :: t => by rw [medRun_cons]; simp [stepMedit, medRun_done cd r t]
+
+theorem fieldRecord_eq (k : Nat) (l : Line) : C04R.fieldRecord k l = readField k l := rfl
+
+/-- a block being read: if one automaton step on a block line is "parse with `g`, store with `upd`", the automaton run is the
+`for _ in range(n)` loop followed by the run from idle -/
+theorem medRun_block {β : Type} (cd : Codec C) (what : Option (Cont × Nat)) (g : Line → Option β) (upd : Raw C → β → Option (Raw C))
+    (hstep : ∀ (n : Nat) (r : Raw C) (l : Line), stepMedit cd meditRows (.inBlock what (n + 1), r) l =
+      ((g l).bind (upd r)).map (fun r' => (afterCount what n, r'))) :
+    ∀ (n : Nat) (d : File) (r : Raw C),
+    medRun cd (afterCount what n) r d =
+      match popFold (fun r l => (g l).bind (upd r)) n (d, r) with
+      | none => none
+      | some s => medRun cd .idle s.2 s.1
+  | 0, d, r => by simp [afterCount, popFold, iter]
+  | n + 1, [], r => by simp [afterCount, popFold, iter, popFoldStep, popLine, medRun, foldOpt]
+  | n + 1, l :: t, r => by
+    have ih := medRun_block cd what g upd hstep n t
+    have hac : afterCount what (n + 1) = .inBlock what (n + 1) := by simp [afterCount]
+    rw [hac, medRun_cons, hstep]
+    unfold popFold at ih ⊢
+    rw [iter_succ]
+    have h1 : popFoldStep (fun r l => (g l).bind (upd r)) (l :: t, r) = ((g l).bind (upd r)).map (fun r' => (t, r')) := by
+      unfold popFoldStep popLine; cases hg : (g l).bind (upd r) <;> simp [hg]
+    rw [h1]
+    cases hg : (g l).bind (upd r) with
+    | none => simp
+    | some r' => simp [ih]
+
+theorem popEach_as_popFold {β : Type} (g : Line → Option β) (u : Raw C → β → Raw C) (n : Nat) (s : RSt C) :
+    popEach g u n s = popFold (fun r l => (g l).bind (fun x => some (u r x))) n s := by
+  unfold popEach popFold
+  have : popStep g u = popFoldStep (fun r l => (g l).bind (fun x => some (u r x))) := by
+    funext s
+    unfold popStep popFoldStep
+    cases popLine s.1 with
+    | none => rfl
+    | some p => cases hg : g p.1 <;> simp [hg]
+  rw [this]
+
+theorem parseField_as_popFold (c : Cont) (n k : Nat) (s : RSt C) :
+    C04R.parseField c n k s = popFold (fun r l => (readField k l).bind (fun x => pushElem r c x)) n s := by
+  unfold C04R.parseField
+  congr 1
+  funext r l
+  rw [fieldRecord_eq]
+  cases readField k l <;> rfl
+
+theorem medRun_vertsBlock (cd : Codec C) (n : Nat) (d : File) (r : Raw C) :
+    medRun cd (afterCount none n) r d =
+      match popEach (fun l => (mapOpt (readNum cd) (slice 0 (some 3) l)).bind vec3) (fun r x => { r with verts := r.verts ++ [x] }) n (d, r) with
+      | none => none
+      | some s => medRun cd .idle s.2 s.1 := by
+  rw [popEach_as_popFold]
+  apply medRun_block cd none (fun l => (mapOpt (readNum cd) (slice 0 (some 3) l)).bind vec3)
+    (fun r x => some { r with verts := r.verts ++ [x] })
+  intro n r l
+  simp only [slice, List.drop_zero, vec3_take3, stepMedit]
+  match l with
+  | [] => simp
+  | [a] => simp
+  | [a, b] => simp
+  | a :: b :: c :: u =>
+    cases ha : readNum cd a <;> cases hb : readNum cd b <;> cases hc : readNum cd c <;> simp [ha, hb, hc]
+
+theorem medRun_fieldBlock (cd : Codec C) (c : Cont) (k n : Nat) (d : File) (r : Raw C) :
+    medRun cd (afterCount (some (c, k)) n) r d =
+      match C04R.parseField c n k (d, r) with
+      | none => none
+      | some s => medRun cd .idle s.2 s.1 := by
+  rw [parseField_as_popFold]
+  apply medRun_block cd (some (c, k)) (readField k) (fun r x => pushElem r c x)
+  intro n r l
+  simp only [stepMedit]
+  cases hf : readField k l with
+  | none => simp
+  | some e => cases hp : pushElem r c e <;> simp [hp]
+
+/-- the count line that follows a block keyword -/
+theorem medRun_count (cd : Codec C) (what : Option (Cont × Nat)) (r : Raw C) (d : File) :
+    medRun cd (.count what) r d =
+      match popLine d with
+      | none => none
+      | some (l1, d) => match (one l1).bind readNat with
+        | none => none
+        | some n => medRun cd (afterCount what n) r d := by
+  cases d with
+  | nil => simp [popLine, medRun, foldOpt]
+  | cons l t =>
+    rw [medRun_cons]
+    simp only [popLine, stepMedit, readNat]
+    match l with
+    | [] => simp [one]
+    | [a] => cases ha : readIdx0 a <;> simp [one, ha]
+    | a :: b :: u => simp [one]
+
+theorem popEach_length {β : Type} (g : Line → Option β) (u : Raw C → β → Raw C) (n : Nat) (d : File) (r : Raw C) (s : RSt C)
+    (h : popEach g u n (d, r) = some s) : s.1.length ≤ d.length := by
+  rw [popEach_eq] at h
+  by_cases hl : d.length < n
+  · simp [hl] at h
+  · simp only [hl, if_false] at h
+    cases hm : mapOpt g (List.take n d) with
+    | none => simp [hm] at h
+    | some xs => simp [hm] at h; subst h; simp
+
+theorem popFold_length (step : Raw C → Line → Option (Raw C)) (n : Nat) (d : File) (r : Raw C) (s : RSt C)
+    (h : popFold step n (d, r) = some s) : s.1.length ≤ d.length := by
+  rw [popFold_eq] at h
+  by_cases hl : d.length < n
+  · simp [hl] at h
+  · simp only [hl, if_false] at h
+    cases hm : foldOpt step r (List.take n d) with
+    | none => simp [hm] at h
+    | some xs => simp [hm] at h; subst h; simp
+
+theorem parseField_length (c : Cont) (n k : Nat) (d : File) (r : Raw C) (s : RSt C)
+    (h : C04R.parseField c n k (d, r) = some s) : s.1.length ≤ d.length :=
+  popFold_length _ n d r s h
+
+/-- one keyword branch of the loop: count line, block, then the loop again -/
+theorem branch_field (cd : Codec C) (c : Cont) (k : Nat) (fuel : Nat) (rest : File) (r : Raw C)
+    (ih : ∀ (d : File) (r : Raw C), d.length < fuel → C04R.meditLoop cd fuel (d, r) = medRun cd .idle r d)
+    (hf : rest.length < fuel + 1) :
+    (match popLine rest with
+      | none => none
+      | some (l1, d) =>
+      match (one l1).bind readNat with
+      | none => none
+      | some n1 =>
+      match C04R.parseField c n1 k (d, r) with
+      | none => none
+      | some s => C04R.meditLoop cd fuel s) = medRun cd (.count (some (c, k))) r rest := by
+  rw [medRun_count]
+  cases rest with
+  | nil => rfl
+  | cons l1 d =>
+    simp only [popLine]
+    cases hn : (one l1).bind readNat with
+    | none => rfl
+    | some n1 =>
+      simp only []
+      rw [medRun_fieldBlock]
+      cases hp : C04R.parseField c n1 k (d, r) with
+      | none => rfl
+      | some s =>
+        simp only []
+        have := parseField_length c n1 k d r s hp
+        have hl : s.1.length < fuel := by simp at hf; omega
+        have := ih s.1 s.2 hl
+        simpa using this
+
+theorem branch_verts (cd : Codec C) (fuel : Nat) (rest : File) (r : Raw C)
+    (ih : ∀ (d : File) (r : Raw C), d.length < fuel → C04R.meditLoop cd fuel (d, r) = medRun cd .idle r d)
+    (hf : rest.length < fuel + 1) :
+    (match popLine rest with
+      | none => none
+      | some (l1, d) =>
+      match (one l1).bind readNat with
+      | none => none
+      | some n1 =>
+      match popEach (fun l => (mapOpt (readNum cd) (slice 0 (some 3) l)).bind vec3) (fun r x => { r with verts := r.verts ++ [x] }) n1 (d, r) with
+      | none => none
+      | some s => C04R.meditLoop cd fuel s) = medRun cd (.count none) r rest := by
+  rw [medRun_count]
+  cases rest with
+  | nil => rfl
+  | cons l1 d =>
+    simp only [popLine]
+    cases hn : (one l1).bind readNat with
+    | none => rfl
+    | some n1 =>
+      simp only []
+      rw [medRun_vertsBlock]
+      cases hp : popEach (fun l => (mapOpt (readNum cd) (slice 0 (some 3) l)).bind vec3) (fun r x => { r with verts := r.verts ++ [x] }) n1 (d, r) with
+      | none => rfl
+      | some s =>
+        simp only []
+        have := popEach_length _ _ n1 d r s hp
+        have hl : s.1.length < fuel := by simp at hf; omega
+        have := ih s.1 s.2 hl
+        simpa using this
+
+theorem meditLoop_bridge (cd : Codec C) : ∀ (fuel : Nat) (d : File) (r : Raw C), d.length < fuel →
+    C04R.meditLoop cd fuel (d, r) = medRun cd .idle r d
+  | 0, d, r, h => by omega
+  | fuel + 1, [], r, h => by simp [C04R.meditLoop, popLine, medRun_nil_idle]
+  | fuel + 1, line :: rest, r, h => by
+    have ih := meditLoop_bridge cd fuel
+    have hrest : rest.length < fuel := by simp at h; omega
+    have hrest1 : rest.length < fuel + 1 := by omega
+    unfold C04R.meditLoop
+    simp only [popLine, beq_iff_eq]
+    rw [medRun_cons]
+    match line with
+    | [] => simp [stepMedit, ih rest r hrest]
+    | [.int i] => simp [stepMedit, ih rest r hrest]
+    | [.txt i] => simp [stepMedit, ih rest r hrest]
+    | a :: b :: u => simp [stepMedit, ih rest r hrest]
+    | [.kw k] =>
+      simp only [List.cons.injEq, Tok.kw.injEq, and_true, stepMedit]
+      by_cases h1 : k = "End"
+      · subst h1; simp [medRun_done]
+      · by_cases h2 : k = "Vertices"
+        · subst h2
+          simp only [h1, if_false, if_true]
+          exact branch_verts cd fuel rest r ih hrest1
+        · simp only [h1, h2, if_false]
+          by_cases h3 : k = "Edges"
+          · subst h3
+            simp only [if_true, meditRows, lookupRow]
+            exact branch_field cd .edges 2 fuel rest r ih hrest1
+          · by_cases h4 : k = "Triangles"
+            · subst h4
+              simp only [h3, if_false, if_true, meditRows, lookupRow]
+              exact branch_field cd .faces 3 fuel rest r ih hrest1
+            · by_cases h5 : k = "Quadrilaterals"
+              · subst h5
+                simp only [h3, h4, if_false, if_true, meditRows, lookupRow]
+                exact branch_field cd .faces 4 fuel rest r ih hrest1
+              · by_cases h6 : k = "Tetrahedra"
+                · subst h6
+                  simp only [h3, h4, h5, if_false, if_true, meditRows, lookupRow]
+                  exact branch_field cd .cells 4 fuel rest r ih hrest1
+                · by_cases h7 : k = "Hexahedra"
+                  · subst h7
+                    simp only [h3, h4, h5, h6, if_false, if_true, meditRows, lookupRow]
+                    exact branch_field cd .cells 8 fuel rest r ih hrest1
+                  · simp only [h3, h4, h5, h6, h7, if_false, meditRows, lookupRow]
+                    exact ih rest r hrest
+
+theorem importMedit_bridge (cd : Codec C) (file : File) : C04R.importMedit cd file = importMedit cd file := by
+  unfold C04R.importMedit
+  rw [meditLoop_bridge cd (file.length + 1) file Raw.empty (by omega)]
+  rfl
+
 end Mouette.IOS
